@@ -20,7 +20,7 @@ THEOREMS = [
     "Yaw.C12.guard_rejects_zero_radius", "Yaw.C12.guard_any", "Yaw.C12.ids_guard", "Yaw.C12.glue_pinned",
 ]
 RULE = ("catalogs created in all three patch modes (given centres in random order incl. centres that attract no "
-        "object, patch-index column with gaps, patch_num via treecorr), 1..6 patches incl. single-object patches, "
+        "object, given centres together with a disagreeing patch-index column, patch-index column with gaps, patch_num via treecorr), 1..6 patches incl. single-object patches, "
         "weighted / unweighted, 1 and 3 workers, small chunk sizes, spatially sorted input whose patches first appear in "
         "descending index order; checked: num_records, sum_weights (EXACT), every "
         "record within the stored radius of the stored centre (robust atan2 formula, 1e-12 slack), keys = 0..N-1 and "
@@ -110,7 +110,7 @@ def run(prop, tier, seed, replay):
             with C.Workers(workers):
                 field = G.make_field(rng)
                 N = field["N"]
-                mode = ["centers", "name", "centers_missing", "num", "centers"][ci % 5]
+                mode = ["centers", "name", "centers_missing", "num", "centers", "centers_and_name"][ci % 6]
                 n = rng.choice([N, N + 3, 30, 80])
                 weights = rng.random() < 0.5
                 s = G.make_sample(rng, field, n=max(n, N), extent_mode=rng.choice(["compact", "wide", "mixed"]),
@@ -150,8 +150,17 @@ def run(prop, tier, seed, replay):
                             cra, cdec = np.insert(cra, pos, far[0]), np.insert(cdec, pos, far[1])
                         given = np.column_stack([cra, cdec])
                         try:
-                            cat = C.make_catalog(root / f"c{ci}", s["ra"], s["dec"], z=s["z"], w=s["w"],
-                                                 centers=AngularCoordinates(given), chunksize=chunk)
+                            if mode == "centers_and_name":
+                                # given centres take precedence over a patch-index column (documented); the column
+                                # deliberately disagrees with the nearest-centre assignment
+                                df = C.dataframe(s["ra"], s["dec"], s["z"], s["w"], (np.asarray(s["patch"]) + 1) % N)
+                                cat = Catalog.from_dataframe(root / f"c{ci}", df, ra_name="ra", dec_name="dec", redshift_name="z",
+                                                             weight_name="w" if s["w"] is not None else None, patch_name="patch",
+                                                             patch_centers=AngularCoordinates(given), degrees=False,
+                                                             overwrite=True, **({} if chunk is None else {"chunksize": chunk}))
+                            else:
+                                cat = C.make_catalog(root / f"c{ci}", s["ra"], s["dec"], z=s["z"], w=s["w"],
+                                                     centers=AngularCoordinates(given), chunksize=chunk)
                         except Exception as e:  # noqa: BLE001
                             ck.case(None, desc if N >= 2 else None)
                             # legitimate only if some given centre really attracts no object
